@@ -330,6 +330,14 @@ class MailboxData(MailboxDataInterface[Message]):
             new_rec = Record(uidl.next_uid, rec.fields, new_filename)
             uidl.next_uid += 1
             uidl.set(new_rec)
+        if destination is not self:
+            # the file keeps its key: were it moved back later, the source's
+            # old record would denote it again, next to its new UID
+            async with UidList.with_write(self._path) as uidl:
+                try:
+                    uidl.remove(uid)
+                except KeyError:
+                    pass
         return new_rec.uid
 
     async def get(self, uid: int, cached_msg: CachedMessage) -> Message:
